@@ -96,12 +96,11 @@ class FnTr:
         raise TranslationError("%s: unknown name %s" % (self.name, name))
 
     def declare_mut(self, name, ty):
-        used = [f for f, _ in self.muts]
-        field = "v_" + name
-        n = 0
-        while field in used:
-            n += 1
-            field = "v_%s_%d" % (name, n)
+        # positional field names (m1, m2, ... in declaration order): renaming a Rust local does not
+        # change the generated text beyond this record, so the tie proofs survive it
+        self.nmut = getattr(self, "nmut", 0) + 1
+        field = "m%d" % self.nmut
+        self.mut_src = getattr(self, "mut_src", []) + [(field, name)]
         self.muts.append((field, ty))
         self.scopes[-1][name] = ("mut", field, ty)
         return field
@@ -1340,6 +1339,8 @@ class Gen:
         lines = []
         if f.muts:
             fields = "; ".join("%s_%s : %s" % (coqname, fl, coq_ty(ty)) for fl, ty in f.muts)
+            if getattr(f, "mut_src", None):
+                lines.append("(* locals: %s *)" % ", ".join("%s = `%s`" % (fl, nm) for fl, nm in f.mut_src))
             lines.append("Record %s := mk%s { %s }." % (L, L, fields))
             for i, (fl, ty) in enumerate(f.muts):
                 args = " ".join("x" if j == i else "(%s_%s l)" % (coqname, g) for j, (g, _) in enumerate(f.muts))
@@ -1347,7 +1348,7 @@ class Gen:
                     coqname, fl, coq_ty(ty), L, L, L, args))
             pm = [fl for fl, _ in param_muts]
             init = "mk%s %s" % (L, " ".join(fl if fl in pm else default_of(ty) for fl, ty in f.muts))
-            code = re.sub(r"\((v_\w+|self_\w+) (l\d+)\)", lambda m: "(%s_%s %s)" % (coqname, m.group(1), m.group(2)), code)
+            code = re.sub(r"\((v_\w+|self_\w+|m\d+) (l\d+)\)", lambda m: "(%s_%s %s)" % (coqname, m.group(1), m.group(2)), code)
         else:
             lines.append("Definition %s := unit." % L)
             init = "tt"
